@@ -333,6 +333,10 @@ func c08section(r c08rsv, s c08sig, crc []byte) []byte {
 	if crc == nil {
 		crc = make([]byte, 4)
 		vrt.Bytes("crc", crc)
+	} else if len(crc) == 0 {
+		// canonical: CRC_32 over everything before it (ComputeCRC is stubbed by the same uninterpreted function)
+		u := vrt.UF32("crc", sec)
+		crc = []byte{byte(u >> 24), byte(u >> 16), byte(u >> 8), byte(u)}
 	}
 	sec = append(sec, crc...)
 	out := []byte{byte(s.ptr)}
